@@ -52,12 +52,37 @@ func (u *reachUnp) Validate() error {
 	return nil
 }
 
+// reachVP / reachVV: named primitives with Validate() on the pointer / the value receiver (forms VP, PVP, VV)
+type reachVP int
+type reachVV int
+
+func (p *reachVP) Validate() error {
+	if *p < 2 {
+		return fmt.Errorf("must be >= 2")
+	}
+	return nil
+}
+func (p reachVV) Validate() error {
+	if p < 2 {
+		return fmt.Errorf("must be >= 2")
+	}
+	return nil
+}
+
+var tReachVP = reflect.TypeOf(reachVP(0))
+var tReachVV = reflect.TypeOf(reachVV(0))
 var tReachUnp = reflect.TypeOf(reachUnp{})
 var tReachIn = reflect.TypeOf(reachIn{})
 
 // reachElemType / reachElem: the element forms In, PIn (*In), PPIn, PPPIn, IfPIn (interface{} holding *In), IfIn, IfPPIn
 func reachElemType(form string) reflect.Type {
 	switch form {
+	case "VP":
+		return tReachVP
+	case "PVP":
+		return reflect.PtrTo(tReachVP)
+	case "VV":
+		return tReachVV
 	case "Unp":
 		return tReachUnp
 	case "PUnp":
@@ -75,6 +100,17 @@ func reachElemType(form string) reflect.Type {
 }
 
 func reachElem(form string, x int) reflect.Value {
+	switch form {
+	case "VP", "PVP":
+		p := reflect.New(tReachVP)
+		p.Elem().SetInt(int64(x))
+		if form == "VP" {
+			return p.Elem()
+		}
+		return p
+	case "VV":
+		return reflect.ValueOf(reachVV(x))
+	}
 	if form == "Unp" || form == "PUnp" {
 		u := reflect.New(tReachUnp)
 		u.Elem().Field(0).SetInt(int64(x))
@@ -121,6 +157,10 @@ func reachXs(v reflect.Value, out *[]int) {
 		return
 	}
 	switch v.Kind() {
+	case reflect.Int:
+		if v.Type() == tReachVP || v.Type() == tReachVV {
+			*out = append(*out, int(v.Int()))
+		}
 	case reflect.Struct:
 		if v.Type() == tReachIn || v.Type() == tReachUnp {
 			*out = append(*out, int(v.Field(0).Int()))
@@ -221,16 +261,20 @@ func reachReplay(args []string) int {
 				case "obj-y":
 					in["w"] = map[string]interface{}{"y": 7}
 				case "u0":
-				in["w"] = 0
-			case "u5":
-				in["w"] = 5
-			case "null-new":
+					in["w"] = 0
+				case "u5":
+					in["w"] = 5
+				case "null-new":
 					in["w"] = map[string]interface{}{"fresh": nil, "other": "o"}
 				case "first":
+					var five interface{} = map[string]interface{}{"x": 5}
+					if form == "VP" || form == "VV" {
+						five = 5
+					}
 					if coll == "M" {
-						in["w"] = map[string]interface{}{"k0": map[string]interface{}{"x": 5}}
+						in["w"] = map[string]interface{}{"k0": five}
 					} else {
-						in["w"] = []interface{}{map[string]interface{}{"x": 5}}
+						in["w"] = []interface{}{five}
 					}
 				}
 				cfg, err := ucfg.NewFrom(in, ucfg.PathSep("."))
